@@ -67,3 +67,58 @@ func H_C16() {
 }
 
 var _ = register("H_C16", H_C16)
+
+// H_C16_refs: a fixed chain written with skip references, a stale replica that merged an early prefix, and a
+// partial log (the result of a size-bounded merge of the whole chain): the stale replica merges the partial
+// log with a bound; the oracle twin is forked from the stale replica and merges the same partial log unbounded.
+func H_C16_refs() {
+	h := newHist(histCfg{R: 1, K: 0, W: 1, sort: vx.Param("SORT", sortLWW), pcN: 1, emptyAt: -1, denyP: -1})
+	N := vx.Param("N", 6)
+	pc := []int{1, 2, 4, 8}[vx.Choice("pc", 4)]
+	at := 1 + vx.Choice("staleAfter", N-1)
+	writer := h.logs[0]
+	stale := freshObserver(h, 0)
+	for i := 0; i < N; i++ {
+		_, err := writer.Append(ctx, []byte{'b', byte('1' + i)}, &ipfslog.AppendOptions{PointerCount: pc})
+		if err != nil {
+			panic(err)
+		}
+		if i+1 == at {
+			if _, err := stale.Join(writer, -1); err != nil {
+				panic(err)
+			}
+		}
+	}
+	partial := freshObserver(h, 0)
+	m := vx.Choice("partialSize", N+1)
+	if _, err := partial.Join(writer, m); err != nil {
+		panic(err)
+	}
+	twin := newLogOpt(h.api, h.writerOf(0), &ipfslog.LogOptions{SortFn: h.sortFn(), IO: h.io(), Entries: stale.GetEntries(), Heads: stale.Heads().Slice()})
+	if _, err := twin.Join(partial, -1); err != nil {
+		panic(err)
+	}
+	full := twin.Values().Slice()
+	total := len(full)
+	n := vx.Choice("size", total+2)
+	_, err := stale.Join(partial, n)
+	vx.Assert("C16", err == nil, "a size-bounded merge of a valid log succeeds")
+	k := n
+	if k > total {
+		k = total
+	}
+	want := full[total-k:]
+	got := stale.Values().Slice()
+	vx.Assert("C16", len(got) == k && stale.Len() == k, "the log holds exactly min(n, total) entries")
+	vx.Assert("C16", sameSeq(got, want), "the log holds exactly the last min(n,total) entries of the unbounded merge's linearisation")
+	vx.Assert("C16", sameSet(hashSet(stale.Heads().Slice()), refHeads(want)), "heads are the unreferenced entries among the kept ones")
+	if n >= total {
+		vx.Assert("C16", sameSet(hashSet(stale.Heads().Slice()), hashSet(twin.Heads().Slice())), "a bound at least as large as the merged size behaves like the unbounded merge")
+	}
+	if m > 0 && m < N && pc > 1 {
+		vx.Cover("partial-source-with-refs")
+	}
+	vx.Cover("c16-refs-done")
+}
+
+var _ = register("H_C16_refs", H_C16_refs)
